@@ -356,12 +356,24 @@ func Payload(id, sender uint64, seq int, topic string) []byte {
 	return []byte(fmt.Sprintf("<%d,%d,%d,%s>", id, sender, seq, topic))
 }
 
+// filler is a keyed stream (splitmix64 from a 64-bit seed mixed from id, sender, seq): two different
+// messages do not share long stretches, unlike shifted windows of one short-period generator.
 func filler(id, sender uint64, seq int, n int) []byte {
 	b := make([]byte, n)
-	x := uint32(id*2654435761) ^ uint32(sender*40503) ^ uint32(seq*977)
-	for i := range b {
-		x = x*1664525 + 1013904223
-		b[i] = 'a' + byte((x>>24)%26)
+	mix := func(z uint64) uint64 {
+		z = (z ^ (z >> 30)) * 0xBF58476D1CE4E5B9
+		z = (z ^ (z >> 27)) * 0x94D049BB133111EB
+		return z ^ (z >> 31)
+	}
+	st := mix(id*0x9E3779B97F4A7C15+1) ^ mix(sender*0xD1B54A32D192ED03+2) ^ mix(uint64(seq)*0x8CB92BA72F3D8DD7+3)
+	for i := 0; i < n; {
+		st += 0x9E3779B97F4A7C15
+		z := mix(st)
+		for k := 0; k < 8 && i < n; k++ {
+			b[i] = 'a' + byte(z&0xff)%26
+			z >>= 8
+			i++
+		}
 	}
 	return b
 }
